@@ -182,13 +182,15 @@ def _k2_job(job):
     lp, lm, ls = job
     ctx = _CTX; part = Part()
     P = ctx.program(['ironplc-parser', 'ironplc-dsl'])
-    key = P.find_fn('ironplc-parser', 'preprocessor::remove_oscat_comment')
+    key = P.find_fn('ironplc-parser', 'preprocessor::preprocess')
     M = Machine(P)
+    plain = lm is None
+    if plain: lm = 0
     pb = [z3.BitVec('p%d' % i, 8) for i in range(lp)]; mb = [z3.BitVec('m%d' % i, 8) for i in range(lm)]; sb = [z3.BitVec('s%d' % i, 8) for i in range(ls)]
-    allb = pb + list(KEY) + mb + list(ENDKEY) + sb
+    allb = pb + ((list(KEY) + mb + list(ENDKEY)) if not plain else []) + sb
     valid = z3.And(LC.utf8_valid(pb)[0] if pb else z3.BoolVal(True), LC.utf8_valid(mb)[0] if mb else z3.BoolVal(True), LC.utf8_valid(sb)[0] if sb else z3.BoolVal(True))
     M.base_constraints = [valid]
-    def entry(M): return M.call_fn(key, [Str(list(allb))])
+    def entry(M): return M.call_fn(key, [Ref(Cell(Str(list(allb))))])
     def on_path(M, pr):
         part.paths += 1
         if pr.inconclusive: part.inconc(pr.inconclusive); return
@@ -203,6 +205,9 @@ def _k2_job(job):
         out = pr.result
         if not isinstance(out, Str): part.inconc('unexpected result %r' % (out,)); return
         a0 = lp + len(KEY); a1 = a0 + lm      # the comment body region
+        if plain:
+            a0 = a1 = -1
+            if len(out.b) != len(allb): wit('C05/K2/length/plain-text', 'preprocessing a text without an OSCAT description changes its length (%d -> %d bytes), shifting every later span' % (len(allb), len(out.b))); return
         if len(out.b) != len(allb):
             multibyte = z3.Or([z3.UGE(x, 0x80) for x in mb]) if mb else z3.BoolVal(False)
             s.push(); s.add(multibyte)
@@ -237,8 +242,8 @@ def k2(ctx, kr):
     global _CTX
     _CTX = ctx
     LM_ = 3 if ctx.tier == 'quick' else 4
-    jobs = [(lp, lm, ls) for lp in (0, 1) for lm in range(0, LM_ + 1) for ls in (0, 1)]
-    kr.bounds = 'source = P ++ "(*@KEY@:DESCRIPTION*)" ++ M ++ "(*@KEY@:END_DESCRIPTION*)" ++ S with P, M, S symbolic valid UTF-8, |P|,|S| <= 1, |M| <= %d' % LM_
+    jobs = [(lp, lm, ls) for lp in (0, 1) for lm in range(0, LM_ + 1) for ls in (0, 1)] + [(lp, None, 0) for lp in range(1, LM_ + 2)]
+    kr.bounds = 'preprocess(source) with source = P ++ "(*@KEY@:DESCRIPTION*)" ++ M ++ "(*@KEY@:END_DESCRIPTION*)" ++ S with P, M, S symbolic valid UTF-8, |P|,|S| <= 1, |M| <= %d; and source = any valid UTF-8 text of 1..%d bytes (left unchanged)' % (LM_, LM_ + 1)
     for part in par_map(_k2_job, jobs): merge_part(kr, part)
     P = ctx.program(['ironplc-parser', 'ironplc-dsl'])
     kr.functions = fn_paths(P, getattr(kr, '_enc', set()))
